@@ -44,3 +44,17 @@ Fixpoint core_stmt (s : stmt) : bool :=
   end.
 Fixpoint core_prog (p : list stmt) : bool :=
   match p with [] => true | s :: r => core_stmt s && core_prog r end.
+
+(* the extended fragment: the core fragment plus loop filters and with-targets *)
+Fixpoint core2_stmt (s : stmt) : bool :=
+  let fix go (l : list stmt) : bool := match l with [] => true | x :: r => core2_stmt x && go r end in
+  match s with
+  | SOut _ | SSet _ _ => true
+  | SIf _ b ei el => go b && go ei && go el
+  | SFor _ _ _ b el => go b && go el
+  | SSetBlock _ b | SWith _ b | SFilter _ b => go b
+  | SSetAttr _ _ _ | SNsNew _ _ => true
+  | SMacro _ _ _ | SCallOut _ _ | SCallBlock _ _ _ _ => false
+  end.
+Fixpoint core2_prog (p : list stmt) : bool :=
+  match p with [] => true | s :: r => core2_stmt s && core2_prog r end.
